@@ -32,9 +32,21 @@ def units_A(tier):
     return U
 
 
+def units_F(tier):
+    n = 8 if tier == "quick" else 24
+    FIF = "src/IPhreeqc_interface_F.cpp"
+    return [("C05.fortran.padfstring", lambda: cbmc.extracted_unit("C05.fortran.padfstring", [(FIF, "padfstring", {"kind": "FunctionDecl"})],
+             open(core.VERIF + "/harness/A/padfstring.c").read(), "h_padfstring", prelude="#include <string.h>\n", rules=[],
+             defines=["VERIF_N=%d" % n], unwind=n + 4, function="padfstring", expect=("assertion",), timeout=900, native=True,
+             bounded={"strings_and_buffers_le": n, "how": "--unwind %d --unwinding-assertions" % (n + 4)}))]
+
+
 def run(tier, seed, only, jobs):
     t0 = time.time()
-    U = units_A(tier)
+    from props import c05_table
+    from vf.astvc import unit as UB
+    UB.TIER.update(tier=tier, seed=seed)
+    U = units_A(tier) + units_F(tier) + c05_table.units(tier) + c05_table.units2(tier)
     if only:
         U = [x for x in U if only in x[0]]
     res = core.run_units(U, jobs=jobs)
